@@ -14,6 +14,7 @@ from vf import gen as G, oracle as O, snapshot as S
 from vf.checks.common import Case, call, exc_text
 
 ID = "C14"
+TECHNIQUE = "runtime monitoring: post-conditions on JordanCurve.intersection (external and internal calls), exact / status-change completeness oracle"
 LEVEL = "exploration"
 RULE = ("random pairs of closed curves: polygon x polygon (int/Fraction/float, exact oracle), polygon x curved, curved "
         "x curved (circles, Bezier blobs of degree 2-3, mixed chains), far / nested / crossing placements, plus curves "
